@@ -3,7 +3,7 @@
    Every stored tour (real and dummy) equals [new_computing] of its node list. The invariant is carried along the
    11 constructors of [vstep] together with the validity invariant [TIs] of SchedToursFacts.v (needed for [remove]:
    the inner nodes of a stored tour are no depots) and [Inv] of SchedCostsFacts.v. *)
-From RS Require Import Base BaseFacts Network NetSpec NetFacts Tour TourSpec TourStmts TourFacts TourValidFacts.
+From RS Require Import SchedPeel Base BaseFacts Network NetSpec NetFacts Tour TourSpec TourStmts TourFacts TourValidFacts.
 From RS Require Import TourExactStmts TourExactFacts.
 From RS Require Import Transition Schedule SchedInv SchedObs SchedStruct SchedCostsFacts SchedToursFacts.
 From RS Require Import PipelineSched Render RenderStmts.
@@ -182,7 +182,7 @@ Lemma update_tours_E s forms usage dids uns p ntp r ntr moved
     = Ok (vehicles1, tours2, forms2, usage2, dummies2, ids1, dids1, uns2, costs2) ->
   EI tours2 dummies2.
 Proof.
-  intros T FP FR H. unfold update_tours in H.
+  intros T FP FR H. apply update_tours_peel in H. unfold update_tours_prefix in H.
   monp H. mon H. monp H. mon H. monp H. inversion H; subst; clear H.
   assert (Q : EI l3 l1).
   { destruct ntp as [nt|].
